@@ -38,6 +38,7 @@ class Unsupported(Exception):
 
 
 LEAN_T = {'int': 'Int', 'bool': 'Bool', 'rat': 'Rat', 'str': 'String'}
+OPT_T = {'optint': 'int', 'optrat': 'rat', 'optstr': 'str'}   # optional parameters, case-split up front
 
 
 class SymExec:
@@ -223,6 +224,13 @@ class SymExec:
             if isinstance(op, ast.IsNot):
                 res = not res
             return 'true' if res else 'false'
+        if l[0] == 'tuple' and r[0] == 'tuple' and isinstance(op, (ast.Eq, ast.NotEq)):
+            # tuples of equal length: elementwise (in)equality
+            if len(l[1]) != len(r[1]):
+                return 'false' if isinstance(op, ast.Eq) else 'true'
+            eqs = [self.compare(a, ast.Eq(), b) for a, b in zip(l[1], r[1])]
+            conj = '(' + ' && '.join(eqs) + ')' if eqs else 'true'
+            return conj if isinstance(op, ast.Eq) else f"(!{conj})"
         if l[0] == 'none' or r[0] == 'none':
             if isinstance(op, ast.Eq):
                 return 'true' if l[0] == r[0] else 'false'
@@ -265,7 +273,13 @@ class SymExec:
             for e in es[1:]:
                 acc = f"({fn} {acc} {e})"
             return (t, acc)
-        if fn == 'abs':
+        if fn in ('np.round', 'numpy.round', 'np.around', 'numpy.around', 'round') and len(args) == 1 and not node.keywords:
+            # round half to even (numpy and Python 3); needs spec key 'imports': ['HdVerif.Model.Round']
+            x = self.as_rat(self.ev(args[0], env))
+            if fn == 'round':
+                return ('int', f"(HdVerif.roundHalfEven {x})")
+            return ('rat', f"((HdVerif.roundHalfEven {x} : Int) : Rat)")
+        if fn in ('abs', 'np.abs', 'numpy.abs'):
             v = self.ev(args[0], env)
             if v[0] == 'rat':
                 return ('rat', f"(if {v[1]} < 0 then -{v[1]} else {v[1]})")
@@ -458,10 +472,10 @@ def lean_type(v):
 
 def translate_block(stmts, lean_name, params, attr_params, consts=None, doc=''):
     """params: list of (python name, 'int'|'bool'|'optint'|'str'|'rat')."""
-    opt = [p for p, t in params if t == 'optint']
+    opt = [p for p, t in params if t in OPT_T]
     sigparts = []
     for p, t in params:
-        sigparts.append(f"({p} : Option Int)" if t == 'optint' else f"({p} : {LEAN_T[t]})")
+        sigparts.append(f"({p} : Option {LEAN_T[OPT_T[t]]})" if t in OPT_T else f"({p} : {LEAN_T[t]})")
     seen = set()
     for k, (t, n) in attr_params.items():
         if n in seen:
@@ -478,8 +492,8 @@ def translate_block(stmts, lean_name, params, attr_params, consts=None, doc=''):
             se = SymExec(attr_params, consts)
             env = {}
             for p, t in params:
-                if t == 'optint':
-                    env[p] = ('none', None) if assignment[p] is None else ('int', f"{p}_v")
+                if t in OPT_T:
+                    env[p] = ('none', None) if assignment[p] is None else (OPT_T[t], f"{p}_v")
                 else:
                     env[p] = (t, p)
             _, pc = se.block(stmts, env, 'true')
